@@ -51,8 +51,8 @@ def Reported (X : Ext Tree) (toTaxa : Name → List Label → List Taxon) (files
       r.labels = [(sAst ++ e.name, [(1, (((srcOf X f).count 10 : Nat) : Int) + 1)])] ∧
       r.taxa = preparedTaxa (toTaxa f.1 [astLabel e.name (srcOf X f)])) ∧
     (∀ t, X.parse (srcOf X f) = .ok t → X.isEmpty t = true →
-      r.labels = [(sAst ++ sEmpty, [(0, 0)])] ∧
-      r.taxa = preparedTaxa (toTaxa f.1 [emptyLabel]))
+      r.labels = [(sAst ++ sEmpty, [(1, (((srcOf X f).count 10 : Nat) : Int) + 1)])] ∧
+      r.taxa = preparedTaxa (toTaxa f.1 [emptyLabel (srcOf X f)]))
 
 /-! ## Executable property predicate for the harness (`c14.spec_check`) -/
 
